@@ -117,6 +117,10 @@ type L struct{}
 type LL L
 type AL = L
 type AI = int
+type PL *L   // a DEFINED pointer type: not identical to *L
+type APL = *L // an alias of the pointer type: identical to *L
+type SL []L
+type FL func(L) *L
 type I interface{ Mown() }
 type OnlyP interface{ Mown() }
 type S struct{}
@@ -233,6 +237,7 @@ var c05Tau = func() []c05Ty {
 		"any", "interface{}", "[]any", "[]interface{}", "interface{ M() }", "error",
 		"struct{}", "struct{ X int }", "struct{ Y int }", "struct{ X AI }",
 		"byte", "uint8", "[]byte", "[]uint8", "rune", "int32",
+		"PL", "APL", "*PL", "SL", "FL", "[]PL", "...PL",
 	}
 	var out []c05Ty
 	for _, e := range exprs {
